@@ -40,10 +40,10 @@ ASSUMPTIONS = [
     "domain: 3 <= N <= 7, 1 <= K <= 3, 2 <= D <= N, entries of u and w are 0 or in [0.25, 2] "
     "(bounded condition number, so that rtol 1e-9 is meaningful for the cancelling shortcuts)",
     "fit: hyperedge sizes >= 2, at least one hyperedge, positive integer weights, row i of a "
-    "supplied u belongs to the node that Hypergraph.get_mapping() sends to i; a supplied w has "
-    "a strictly positive diagonal (and is strictly positive when full), a supplied u is strictly "
-    "positive: a community with an all-zero affinity row makes the update 0/0 and is outside the "
-    "model's domain; n_iter <= 12 so that geometric decay cannot underflow",
+    "supplied u belongs to the node that Hypergraph.get_mapping() sends to i; a supplied u is "
+    "strictly positive and a supplied w has at least one positive entry (zero rows allowed), so "
+    "that every observed hyperedge has a positive Poisson rate -- data of probability zero "
+    "are outside the model's domain; n_iter <= 20",
     "ascent: with a prior on w the ascending quantity is the MAP objective "
     "L(u, w) - w_prior * C * sum_kq w_kq (C = sum_d binom(N-2,d-2)/kappa_d; C*w is the affinity "
     "the multiplicative updates operate on); the plain likelihood is only demanded for w_prior = 0",
@@ -242,6 +242,10 @@ def check_kappa(case, ctx):
         require(close(math.exp(g), kappa(N, d), 0.0),
                 lambda: "exp(log_kappa(array %r))[d=%d] with N=%d: expected %d, got %r"
                 % (dims, d, N, kappa(N, d), math.exp(g)), key="log_kappa")
+    got = model.log_kappa(np.array([], dtype=int))
+    require(np.shape(got) == (0,),
+            lambda: "log_kappa(empty array) returned %r, expected an empty array" % (got,),
+            key="log_kappa_empty")
     # C: sum_d binom(N-2, d-2) / kappa_d, for "all", an int, an array; summands
     allD = list(range(2, D + 1))
     for name, arg, ds in (("'all'", "all", allD), ("int %d" % dims[0], dims[0], [dims[0]]),
@@ -369,7 +373,7 @@ def sized_edges(draw, N, D, max_edges=8):
 
 
 @st.composite
-def fit_cases(draw, ascent=False, supplies=("u", "w", "u", "w", "both", "none")):
+def fit_cases(draw, ascent=False, supplies=("u", "w", "u", "w", "both", "none"), dying=False):
     uni = draw(S.universes(min_size=3, max_size=7))
     labels = uni["labels"]
     N = len(labels)
@@ -384,19 +388,34 @@ def fit_cases(draw, ascent=False, supplies=("u", "w", "u", "w", "both", "none"))
     else:
         supply = draw(st.sampled_from(list(supplies)))
     u = draw(u_matrices(N, K, positive=True)) if supply in ("u", "both") else None
-    w = draw(w_matrices(K, assortative, positive=True)) if supply in ("w", "both") else None
+    w = None
+    if supply in ("w", "both"):
+        # zero entries (even a whole zero row: a community nobody can use) are allowed
+        w = draw(w_matrices(K, assortative, positive=draw(st.booleans())))
+        if not any(x > 0 for r in w for x in r):
+            w[0][0] = 1.0
+    # (u_prior, w_prior); a prior on u with a free w is the scale-degenerate combination in
+    # which surplus communities die out fastest
+    priors = draw(st.sampled_from([(0.0, 0.0), (0.0, 1.0), (0.0, 3.0), (0.5, 0.0), (0.5, 0.0),
+                                   (0.5, 1.0), (0.5, 3.0)]))
     case = {
         "kind": uni["kind"], "labels": labels, "edges": edges, "weights": weights,
         "add_all_nodes": draw(st.booleans()),
         "K": K, "assortative": assortative, "supply": supply, "u": u, "w": w,
-        "u_prior": draw(st.sampled_from([0.0, 0.5])),
-        "w_prior": draw(st.sampled_from([0.0, 1.0, 3.0])),
+        "u_prior": priors[0],
+        "w_prior": priors[1],
         "max_hye": draw(st.sampled_from(["none", "none", "D", "D+1"])),
         "pass_K": draw(st.booleans()),
         "seed": draw(S.seeds),
     }
+    if dying:
+        # both parameters trained, more communities than the data support, a prior on u
+        # only: the surplus communities decay doubly exponentially
+        case.update(K=draw(st.sampled_from([2, 3])), supply="none", u=None, w=None,
+                    assortative=draw(st.sampled_from([True, True, False])), u_prior=0.5,
+                    w_prior=draw(st.sampled_from([0.0, 0.0, 1.0])))
     if not ascent:
-        case["n_iter"] = draw(st.integers(1, 12))
+        case["n_iter"] = draw(st.sampled_from([8, 12, 20] if dying else [1, 2, 3, 5, 8, 12, 20]))
         case["tolerance"] = draw(st.sampled_from([None, None, 1e-3]))
         case["check_every"] = draw(st.sampled_from([1, 2, 10]))
     return case
@@ -471,6 +490,8 @@ def _classify_fit(case, ctx, N):
               "max_hye_size:" + case["max_hye"], "w_prior=%g" % case["w_prior"],
               "u_prior=%g" % case["u_prior"], "data max size %d" % data_max_size(case))
     used = {i for e in case["edges"] for i in e}
+    if "n_iter" in case:
+        ctx.label("n_iter >= 8" if case["n_iter"] >= 8 else "n_iter < 8")
     if len(used) < len(case["labels"]) and N == len(case["labels"]):
         ctx.label("has isolated node")
 
@@ -609,7 +630,8 @@ def _fit_strategy(tier):
 
 def _validity_strategy(tier):
     # both parameters trained is where a community can die out (0/0 in the updates)
-    return fit_cases(supplies=("none", "none", "none", "u", "w", "both"))
+    general = fit_cases(supplies=("none", "none", "none", "u", "w", "both"))
+    return st.one_of(general, general, fit_cases(dying=True))
 
 
 def _ascent_strategy(tier):
@@ -617,27 +639,27 @@ def _ascent_strategy(tier):
 
 
 CLAUSES = [
-    Clause("poisson_params", _params_strategy, check_poisson_params, quick=150, thorough=1500,
+    Clause("poisson_params", _params_strategy, check_poisson_params, quick=150, thorough=1000,
            shards_quick=2,
            rule="D >= 3, K >= 2 and at least one positive Poisson parameter; all hyperedges of "
                 "size 2..D enumerated, dense and sparse incidence"),
-    Clause("kappa", _params_strategy, check_kappa, quick=150, thorough=1500,
+    Clause("kappa", _params_strategy, check_kappa, quick=150, thorough=1000,
            rule="D >= 3 (every size 2..D as int and numpy int, a drawn array of sizes)"),
-    Clause("expected_degree", _params_strategy, check_expected_degree, quick=150, thorough=1500,
+    Clause("expected_degree", _params_strategy, check_expected_degree, quick=150, thorough=1000,
            shards_quick=2,
            rule="D >= 3, K >= 2 and a positive expected degree"),
     Clause("dimension_sequence", _params_strategy, check_dimension_sequence, quick=200,
-           thorough=1500,
+           thorough=1000,
            rule="D >= 3, K >= 2 and at least one size with positive expected count"),
-    Clause("fit_fixed_params", _fit_strategy, check_fit_fixed_params, quick=200, thorough=1500,
+    Clause("fit_fixed_params", _fit_strategy, check_fit_fixed_params, quick=200, thorough=1000,
            shards_quick=2,
            rule="exactly one of u, w supplied (the other one is trained) and n_iter >= 2"),
-    Clause("fit_validity", _validity_strategy, check_fit_validity, quick=300, thorough=1500,
+    Clause("fit_validity", _validity_strategy, check_fit_validity, quick=300, thorough=1000,
            shards_quick=2,
            rule="at least one parameter trained, n_iter >= 2, K >= 2"),
-    Clause("fit_max_size", _fit_strategy, check_fit_max_size, quick=150, thorough=800,
+    Clause("fit_max_size", _fit_strategy, check_fit_max_size, quick=150, thorough=500,
            rule="max_hye_size=None and data with a hyperedge of size >= 3"),
-    Clause("em_ascent", _ascent_strategy, check_em_ascent, quick=120, thorough=800,
+    Clause("em_ascent", _ascent_strategy, check_em_ascent, quick=120, thorough=500,
            shards_quick=3,
            rule="K >= 2, data with a hyperedge of size >= 3, objective strictly increases at "
                 "least once over n_iter = 1..8"),
